@@ -128,6 +128,9 @@ theorem discard_natural (f : CDiagram) (hf : f.WF) (hbf : f.BoxesOK) (xs xs' : L
 theorem affine_respects (m n : Nat) (s : Int) (bare : Bool) :
     ((Prim.affine m n s bare).box m n).Respects := Cart.affine_respects m n s bare
 
+/-- Hierarchical boxes: a box whose function is the identity sub-diagram `Id(m)`. -/
+theorem ident_respects (m : Nat) : ((Prim.ident m).box m m).Respects := Cart.ident_respects m
+
 theorem generators_respect : SWAP.Respects ∧ COPY.Respects ∧ DISCARD.Respects ∧ ADD.Respects :=
   ⟨Cart.SWAP_respects, Cart.COPY_respects, Cart.DISCARD_respects, Cart.ADD_respects⟩
 
